@@ -368,8 +368,9 @@ UpdateMeta(p, k, e) ==
 JanScan ==
     /\ Janitor
     /\ jan.phase = "idle"
-    /\ jan' = [JanIdle EXCEPT !.phase = "removing", !.todo = {k \in Present : entries[k].exp}]
-    /\ lastEv' = [kind |-> "scan", expired |-> {k \in Present : entries[k].exp}]
+    \* (an entry is looked at under its shard lock, taken with TryLock: one that is in use is left for the next cycle)
+    /\ jan' = [JanIdle EXCEPT !.phase = "removing", !.todo = {k \in Present : entries[k].exp /\ lock[ShardOf[k]] = Free}]
+    /\ lastEv' = [kind |-> "scan", expired |-> {k \in Present : entries[k].exp /\ lock[ShardOf[k]] = Free}]
     /\ UNCHANGED <<entries, path, objs, bytes, count, dead, lock, pc, op, pend, handles, clock, nextVer, limit>>
 
 JanRemove(k) ==
@@ -392,13 +393,15 @@ JanRemove(k) ==
 JanEnsure ==
     /\ jan.phase = "removing"
     /\ jan.todo = {}
-    /\ IF bytes >= limit /\ Present # {}
-       THEN /\ jan' = [JanIdle EXCEPT !.phase = "evicting", !.cands = Present, !.pre = entries, !.clk = clock,
-                                      !.lim = limit, !.before = bytes]
+    /\ IF bytes >= limit /\ {k \in Present : lock[ShardOf[k]] = Free} # {}
+       THEN \* (entries whose shard is held while the snapshot is taken are in use: not candidates)
+            /\ jan' = [JanIdle EXCEPT !.phase = "evicting", !.cands = {k \in Present : lock[ShardOf[k]] = Free},
+                                      !.skipped = {k \in Present : lock[ShardOf[k]] # Free},
+                                      !.pre = entries, !.clk = clock, !.lim = limit, !.before = bytes]
             /\ lastEv' = NoEv
        ELSE /\ jan' = JanIdle
             /\ lastEv' = IF bytes >= limit
-                          THEN EvRecord("cycle", limit, bytes, bytes, {}, {}, entries, clock, {})
+                          THEN EvRecord("cycle", limit, bytes, bytes, {}, Present, entries, clock, {})
                           ELSE NoEv
     /\ UNCHANGED <<entries, path, objs, bytes, count, dead, lock, pc, op, pend, handles, clock, nextVer, limit>>
 
